@@ -10,7 +10,7 @@ Open Scope Z_scope.
 (** Every path of the census agrees with every other one, and with frame[x, y] / frame[x, y] = p:
     the same coordinates are accepted - exactly those of the frame - and the same bytes are addressed. *)
 Theorem gen_every_pixel_path_agrees :
-  forallb path_ok gen_paths = true -> bounds_exact getitem_reject = true -> bounds_exact setitem_reject = true ->
+  pixel_offsets_spec -> forallb path_ok gen_paths = true -> bounds_exact getitem_reject = true -> bounds_exact setitem_reject = true ->
   forall w h,
     (forall p q, In p gen_paths -> In q gen_paths -> forall f g (b : buf) x y c v,
         path_accepts p w h f x y c = path_accepts q w h g x y c
@@ -25,7 +25,7 @@ Theorem gen_every_pixel_path_agrees :
           /\ path_off p w h f x y c = setitem_off x y w h + c
           /\ (path_accepts p w h f x y c = true -> 0 <= path_off p w h f x y c < 4 * w * h)).
 Proof.
-  intros Hp Hg Hs w h. rewrite forallb_forall in Hp. split.
+  intros [gen_getitem_off_spec gen_setitem_off_spec] Hp Hg Hs w h. rewrite forallb_forall in Hp. split.
   - intros p q Ip Iq f g b x y c v. exact (paths_agree p q (Hp p Ip) (Hp q Iq) w h f g b x y c v).
   - intros p Ip f x y c Hc.
     destruct (item_and_path_agree getitem_reject p Hg (Hp p Ip) w h f x y c Hc) as [A1 O1].
